@@ -73,6 +73,10 @@ fn main() {
         c15::hunt_fgmax(args[2].parse().unwrap(), args[3].parse().unwrap(), args[4].parse().unwrap(), args[5].parse().unwrap());
         return;
     }
+    if args[1] == "hunt-root0" {
+        c04::hunt_root0(args[2].parse().unwrap(), args[3].parse().unwrap(), args[4].parse().unwrap());
+        return;
+    }
     if args[1] == "hunt-noninv" {
         c04::hunt_noninv(args[2].parse().unwrap(), args[3].parse().unwrap(), args[4].parse().unwrap());
         return;
